@@ -261,6 +261,16 @@ func (w *world) apply(a *Action) (ok bool) {
 		w.sizes[a.Ev] = size
 		// Time-triggered rotation is judged only where the measured interval makes the outcome certain:
 		// the sink compares time.Since(LastCreated) with MaxDuration somewhere inside this call.
+		if w.cfg.Neg && w.cfg.MaxFiles > 0 {
+			// environment step without model state: modification times of the sink's files are rewritten
+			// (backup / restore / touch) so that they run against the order of the names. Retention is
+			// defined by the names' timestamps, so nothing the model predicts may change.
+			l := List(w.dir, nil)
+			for i, n := range l.TsName {
+				t := time.Now().Add(time.Duration(len(l.TsName)-i) * time.Hour)
+				os.Chtimes(filepath.Join(w.dir, n), t, t)
+			}
+		}
 		lc := w.fs.LastCreated
 		before := time.Since(lc)
 		t0 := time.Now()
@@ -399,7 +409,20 @@ func compare(rep *Report, cfg *Config, w *world, path []Action, a *Action, p *Pr
 	// C08: the acknowledged sequence survives (pruned files aside): same events, once, in order
 	fr, fm := flat(real), flat(model)
 	if !eqInts(fr, fm) {
-		rep.mm(Mismatch{Props: []string{"C08"}, What: "events present in the sink's files, oldest to newest", Path: path, Action: a, Expected: fm, Observed: fr})
+		// an event that the files still hold although the model pruned its file is (also) a retention fault:
+		// "at most MaxFiles rotated files remain, namely the newest" (C15)
+		props := []string{"C08"}
+		inModel := map[int]bool{}
+		for _, id := range fm {
+			inModel[id] = true
+		}
+		for _, id := range fr {
+			if !inModel[id] {
+				props = []string{"C08", "C15"}
+				break
+			}
+		}
+		rep.mm(Mismatch{Props: props, What: "events present in the sink's files, oldest to newest", Path: path, Action: a, Expected: fm, Observed: fr})
 		return
 	}
 	// C15: which file holds what (rotation points, retention, naming)
